@@ -11,6 +11,7 @@ THEOREMS = [
     "Lou.C07.back_roundtrip",
             "Lou.ModelEngine.fwdRun_nonneg", "Lou.ModelEngine.model_fwd_roundtrip",
             "Lou.ModelEngine.callFwd_eq",
+            "Lou.ModelEngine.engineFor_ok",
 ]
 
 CLAIM = dict(
